@@ -75,17 +75,15 @@ theorem flag_plumbing :
     ∧ executeLoop = "info,fetch,call,register,log"
     ∧ registerBody = "undefer,info,add,relations" := by decide +kernel
 
-/-- Where introspector.rst names a category for an introspectable, the directive uses that name — except
-`set_default_csrf_options` (finding F-C20c, witness below). -/
-theorem documented_categories_partial :
-    ∀ s ∈ specDirectives, s.name ≠ "set_default_csrf_options" →
-      ∀ i ∈ s.intros, ∀ p ∈ s.docCategory, p.1 = i.var → i.category = "'" ++ p.2 ++ "'" := by
-  decide +kernel
-
-/-- F-C20c: the chapter says ``default csrf options``, the source files it under 'default csrf view options' -/
-theorem csrf_options_category_counterexample :
-    ∃ s ∈ specDirectives, s.name = "set_default_csrf_options" ∧
-      ∃ i ∈ s.intros, ∃ p ∈ s.docCategory, p.1 = i.var ∧ i.category ≠ "'" ++ p.2 ++ "'" := by
+/-- **documented_categories** — the category headings of docs/narr/introspector.rst are regenerated on every run
+(`docCategories`, `docStatus = "ok"`: section found, every heading well-formed, no duplicates).  Every category a
+directive records is one of those headings or one of the eight category expressions the chapter is silent about
+(`undocumentedCategories`); every heading is recorded by some directive; the specification's documented name of
+each introspectable is a heading and is literally the category in the source.  (Full since /repo 4ce8e67 renamed
+the heading ``default csrf options`` to what the code records — finding F-C20c; reverting that commit, or renaming
+the category in security.py, makes this fail.) -/
+theorem documented_categories :
+    docStatus = "ok" ∧ docOk docCategories undocumentedCategories directives specDirectives = true := by
   decide +kernel
 
 /-! ## Part II — registration: exactly the executed actions' introspectables, pointing at their statement -/
